@@ -317,6 +317,35 @@ fn describe(o: &[Outcome]) -> String {
         .join(", ")
 }
 
+/// Fuzz entry: [buffer selector][n][n cut bytes][stream...]; arbitrary stream bytes, compared with the reference splitter.
+pub fn check_raw_stream(data: &[u8]) -> Result<(), String> {
+    if data.len() < 2 {
+        return Ok(());
+    }
+    let buf_len = 20 + (data[0] as usize) * 3;
+    let n = (data[1] as usize % 9).min(data.len() - 2);
+    let cuts = &data[2..2 + n];
+    let stream = &data[2 + n..];
+    let mut chunks = Vec::new();
+    let mut left = stream.len();
+    for c in cuts {
+        let l = (*c as usize).min(left);
+        chunks.push(l);
+        left -= l;
+    }
+    chunks.push(left);
+    let (exp, exp_consumed) = expected(stream, buf_len);
+    let (got, consumed) = match guard(|| drive(stream, &chunks, buf_len)) {
+        Guard::Ok(r) => r?,
+        Guard::LibPanic(m) => return Err(format!("reassembler panicked: {}", m)),
+        Guard::HarnessPanic(m) => return Err(format!("HARNESS-{}", m)),
+    };
+    if got != exp || consumed != exp_consumed {
+        return Err(format!("chunking {:?} (buffer {}): got {} / consumed {}, expected {} / {}", short(&chunks), buf_len, describe(&got), consumed, describe(&exp), exp_consumed));
+    }
+    Ok(())
+}
+
 pub fn arb_packet() -> BoxedStrategy<Vec<u8>> {
     prop_oneof![
         2 => arb_msg(GenOpts { max_attrs: 0, tails: false, ..GenOpts::default() }),
@@ -359,7 +388,7 @@ pub fn run(ctx: &Ctx) -> RunResult {
         "a MoreBytesNeeded result means the whole chunk was consumed".into(),
     ];
     let thorough = ctx.tier == Tier::Thorough;
-    rr.absorb(run_prop(ctx, "stream", ctx.pick(600, 6_000), arb_case, |c, st| check_stream(c, thorough, st)));
+    rr.absorb(run_prop(ctx, "stream", ctx.pick(8_000, 60_000), arb_case, |c, st| check_stream(c, thorough, st)));
     rr
 }
 
